@@ -388,7 +388,10 @@ def run_alias(g, acc):
                     target, other = (x, y) if side == 'source' else (y, x)
                     before_other = P.canon(other)
                     before_val = _value(other)
-                    f = dict(inplace_ops(target))[iname]
+                    f = dict(inplace_ops(target)).get(iname)
+                    if f is None:      # the target holds no block this in-place operation could address
+                        acc.cnt['alias_inplace_rejected'] += 1
+                        continue
                     st2, r2 = TC.call(f, target)
                     acc.transitions += 1
                     acc.states += 1
